@@ -9,7 +9,8 @@ PROP = {
                 "extracted Config model; oracle = documented constraints table, save/load equality, nothing written "
                 "on rejection, every strict prefix fails, open fails on an unreadable manifest or on a missing one over "
                 "existing files and otherwise uses the stored configuration (EngineFacade.VerifConfig, field by field) with earlier data readable; non-trivial = a successful save followed by a "
-                "load, or a rejected save, or a tampering step, or an engine open; distinct by case text",
+                "load, or a rejected save, or a tampering step, or an engine open; distinct by case text"
+                " Added later: left-over MANIFEST.tmp of any length, stored-text oracle (a manifest that is invalid when read on a zero configuration must not load), overflow-sized values for every bounded integer.",
         "assumptions": ["compaction_ratio is modelled as the exact decimal of the float64's shortest representation: "
                         "strconv.FormatFloat(f,-1)/ParseFloat agree with decimal arithmetic on such values (Go's "
                         "shortest-round-trip guarantee); tampered manifests keep the ratio at <= 15 significant digits",
